@@ -57,6 +57,7 @@ def main(argv):
             print('unknown argument', argv[i]); return 2
     if tier not in ('quick', 'thorough'):
         tier = 'quick'
+    os.environ['VERIF_TIER_ACTIVE'] = tier
     try:
         common.ensure_deps()
         mod = importlib.import_module('checks.' + prop.lower())
